@@ -606,11 +606,28 @@ SEEDED = [
     ("r5-C18-1", "C18", "PA1"), ("r5-C19-1", "C19", "NAN1"),
     ("r5-C19-2", "C19", "C2"), ("r5-C20-1", "C20", "HOM1"),
     ("r5-C20-2", "C20", "P1q"),
+    # round 6 (unsteered): 7 of 36 caught by the property's own check when
+    # first evaluated
+    ("r6-C01-1", "C01", "LK1"), ("r6-C01-2", "C01", "ZD1"),
+    ("r6-C03-1", "C03", "SH3"), ("r6-C03-2", "C03", "RO"),
+    ("r6-C04-1", "C04", "SH1"), ("r6-C04-2", "C04", "MK2"),
+    ("r6-C05-1", "C05", "WP1"), ("r6-C06-1", "C06", "WP1"),
+    ("r6-C06-2", "C06", "BFS2"), ("r6-C08-1", "C08", "EIGH1"),
+    ("r6-C08-2", "C08", "LK2"), ("r6-C09-1", "C09", "V2r"),
+    ("r6-C09-2", "C09", "MC1"), ("r6-C10-1", "C10", "B2"),
+    ("r6-C10-2", "C10", "C2"), ("r6-C11-1", "C11", "ORD1"),
+    ("r6-C11-2", "C11", "LK2"), ("r6-C12-1", "C12", "LK1"),
+    ("r6-C12-2", "C12", "HOM1"), ("r6-C14-1", "C14", "HOM1"),
+    ("r6-C14-2", "C14", "SH2"), ("r6-C15-1", "C15", "LK1"),
+    ("r6-C16-2", "C16", "EIG1"), ("r6-C17-2", "C17", "CLO1"),
+    ("r6-C18-2", "C18", "AX1"), ("r6-C20-1", "C20", "K2"),
 ]
 # seeded changes no static rule here decides (numerical / heuristic):
 # C14-1, C15-1, C15-2, C19-1, C20-2, r2-C12-2, r2-C14-1, r2-C15-2, r2-C19-1,
 # r2-C20-2, r5-C03-2, r5-C08-1, r5-C08-2, r5-C09-2, r5-C10-1, r5-C10-2,
-# r5-C16-1, r5-C17-1, r5-C18-2 -- see DESIGN.md section 6.2
+# r5-C16-1, r5-C17-1, r5-C18-2, r6-C05-2, r6-C13-1, r6-C13-2, r6-C15-2,
+# r6-C16-1, r6-C17-1, r6-C18-1, r6-C19-1, r6-C19-2, r6-C20-2 -- see DESIGN.md
+# section 6.2
 
 # behaviour-preserving edits: every listed property must stay silent (exit 0)
 NEUTRAL = [
